@@ -133,10 +133,6 @@ Definition e_abs (n : fl) : fl :=
   else if fge n f_zero then n
   else fmul n (of_Z (-1)).
 
-(* signbit_fallback reads the top bit of the representation; all NaNs are identified with the
-   canonical quiet NaN (sign bit clear), like everywhere in this model *)
-Definition e_signbit_fb (x : fl) : bool := Bsign x.
-
 (* copysign_fallback: if (signbit(x) != signbit(y)) return -x; return x; *)
 Definition e_copysign_fb (x y : fl) : fl :=
   if negb (Bool.eqb (Bsign x) (Bsign y)) then fneg x else x.
@@ -264,6 +260,12 @@ Definition dec32 : Z -> b32 := dec 23 8 eq_refl eq_refl eq_refl.
 Definition enc32 : b32 -> Z := enc 23 8.
 Definition dec64 : Z -> b64 := dec 52 11 eq_refl eq_refl eq_refl.
 Definition enc64 : b64 -> Z := enc 52 11.
+
+(* signbit_fallback: (bit_cast<uintN_t>(arg) >> (N-1)) != 0; all NaNs are identified with the
+   canonical quiet NaN (sign bit clear), like everywhere in this model *)
+Definition e_signbit_bits (w bits : Z) : bool := negb (Z.shiftr bits (w - 1) =? 0).
+Definition signbit_fb32 (x : b32) : bool := e_signbit_bits 32 (enc32 x).
+Definition signbit_fb64 (x : b64) : bool := e_signbit_bits 64 (enc64 x).
 
 Definition nextafter32 : b32 -> b32 -> b32 := e_nextafter 24 128 p32 pe32 32 enc32 dec32.
 Definition nextafter64 : b64 -> b64 -> b64 := e_nextafter 53 1024 p64 pe64 64 enc64 dec64.
